@@ -112,7 +112,8 @@ def build_model():
             return exe
         for s in srcs:
             shutil.copy(s, d)
-        sh(['ocamlfind', 'ocamlopt', '-O2', '-w', '-a', 'model.mli', 'model.ml', 'driver.ml', '-o', 'modelrun'], cwd=d)
+        sh(['ocamlfind', 'ocamlopt', '-O2', '-w', '-a', 'model.mli', 'model.ml', 'driver.ml', '-o', 'modelrun.new'], cwd=d)
+        os.replace(os.path.join(d, 'modelrun.new'), exe)
         open(stamp, 'w').write(h)
         return exe
 
